@@ -298,6 +298,7 @@ pub fn replay(kind: &str, case: &Value) -> Result<(), String> {
         "ts" => check_ts(&serde_json::from_value(case.clone()).map_err(e)?, &mut st),
         "proj" => check_proj(&serde_json::from_value(case.clone()).map_err(e)?, &mut st),
         "edge" => check_edge(&serde_json::from_value(case.clone()).map_err(e)?, &mut st),
+        "clock" => crate::clock::check_clock(&serde_json::from_value(case.clone()).map_err(e)?, false, true, &mut st),
         "badns" => {
             let (c, ns, f): (search::SearchCase, u32, Fields) = serde_json::from_value(case.clone()).map_err(e)?;
             let tzv = c.zone.to_tz().map_err(|e| format!("{e:?}"))?;
@@ -313,7 +314,7 @@ pub fn replay(kind: &str, case: &Value) -> Result<(), String> {
 pub fn run(ctx: &Ctx) -> Outcome {
     let mut out = Outcome::new(
         "Every constructor: DateTime::new over valid / single-defect fields x local time types with full-i32 offsets (cross-checked against from_timespec_and_local and from_total_nanoseconds_and_local); from_timespec_and_local over the unix-time mixture; projection between two generated zones (target type and fields from the O-zone model, (unix, ns) preserved, equality across zones); \
-         pools of date-times x all pairs for ==/partial_cmp; searches at both ends of the supported range in fixed-offset zones of three shapes; and the invariant monitor over every entry (incl. both halves of gap entries) of the C05 search run. \
+         pools of date-times x all pairs for ==/partial_cmp; searches at both ends of the supported range in fixed-offset zones of three shapes; DateTime::now / UtcDateTime::now on zones switching within seconds of the clock reading (instant inside the harness's clock bracket, type = the model's there); and the invariant monitor over every entry (incl. both halves of gap entries) of the C05 search run. \
          Non-trivial: second 60, |offset| > 1 day, instant within 70 years of a range end, projected instants, range-edge searches.",
     );
     out.assumptions = vec!["from_timespec_and_local accepts instants outside the UTC range as long as instant + offset is representable (documented behaviour); DateTime::new and the search require the instant itself inside the range".into()];
@@ -389,6 +390,14 @@ pub fn run(ctx: &Ctx) -> Outcome {
             Ok(())
         })
     });
+    out.absorb_all(rs);
+    if out.failure.is_some() {
+        return out;
+    }
+    // DateTime::now / UtcDateTime::now on zones that switch around the clock reading (instant inside the harness's clock bracket, fields
+    // and type = the model's at that instant)
+    let strat_c = crate::clock::arb_clock_case();
+    let rs = par_shards(8, |shard, st| pt_shard(ctx, "clock", 700 + shard, ctx.tier.pick(4_000u32, 60_000u32), &strat_c, st, |c, st| crate::clock::check_clock(c, false, true, st)));
     out.absorb_all(rs);
     if out.failure.is_some() {
         return out;
